@@ -304,6 +304,11 @@ def validate(cls, request, resp):
                 return "malformed HTTP header line %r" % h[:60]
         if request.startswith(b"HEAD ") and body:
             return "HEAD response carries a body"
+        for h in head.split(b"\r\n")[1:]:
+            if h.lower().startswith(b"content-length:") and not request.startswith(b"HEAD "):
+                v = h.split(b":", 1)[1].strip()
+                if not v.isdigit() or int(v) != len(body):
+                    return "Content-Length announces %s but %d body bytes follow" % (v.decode("latin-1"), len(body))
         m2 = _HTTP_STATUS.match(body)
         if m2 and b"\r\n\r\n" in body and all(_HTTP_HEADER.match(h) for h in
                                               body.partition(b"\r\n\r\n")[0].split(b"\r\n")[1:]):
